@@ -513,7 +513,9 @@ class EngineTheory(Theory):
                 return ex.apply_contract(e, ex.reg[cname], [base] + args, st)
         if base.sort == 'Iter' and base.meta.get('nondet') and meth == 'close' and not args:
             self.nd_close(ex, st, base)
-            return [(st, NONE)]
+            # the generator behind the handle may run user code (a Python predicate reached through yield from): its finalisation
+            # can raise; the generator is finished either way
+            return [(st, NONE), (st.fork().tag('close.raises'), Exc('UserException'))]
         if base.sort == 'Module' and base.e == 'sys':
             if meth == 'getrecursionlimit' and not args:
                 return [(st, SV('Int', st.comp['rlimit']))]
